@@ -314,6 +314,7 @@ pub struct Ctx {
     extra: BTreeMap<String, Value>,
     known: Vec<KnownFinding>,
     machinery_errors: Vec<String>,
+    selfcheck_failures: Vec<String>,
     pub states: u64,
     pub transitions: u64,
     pub traces_validated: u64,
@@ -413,6 +414,7 @@ impl Ctx {
             extra: BTreeMap::new(),
             known: load_known_findings(&Path::new(VERIF_ROOT).join("KNOWN_FINDINGS.txt")),
             machinery_errors: vec![],
+            selfcheck_failures: vec![],
             states: 0,
             transitions: 0,
             traces_validated: 0,
@@ -477,7 +479,9 @@ impl Ctx {
     /// Anti-vacuity / self-check assertion of the harness itself.
     pub fn require(&mut self, cond: bool, what: &str) {
         if !cond && !self.is_replay() {
-            self.machinery_error(format!("self-check failed: {what}"));
+            let e = format!("self-check failed: {what}");
+            eprintln!("MACHINERY-ERROR property={} {}", self.prop, e);
+            self.selfcheck_failures.push(e);
         }
     }
 
@@ -744,7 +748,7 @@ impl Ctx {
             "assumptions": self.assumptions,
             "wall_s": round3(wall),
             "violations": unknown.len(),
-            "machinery_errors": self.machinery_errors,
+            "machinery_errors": self.machinery_errors.iter().chain(self.selfcheck_failures.iter()).collect::<Vec<_>>(),
         });
         let ev_dir = verif_root().join("evidence");
         let _ = std::fs::create_dir_all(&ev_dir);
@@ -773,11 +777,18 @@ impl Ctx {
             eprintln!("{} machinery error(s); no verdict", self.machinery_errors.len());
             std::process::exit(2);
         }
+        // A violation has been re-executed and is a verdict of its own; the harness's
+        // anti-vacuity self-checks (e.g. "some honest proof was accepted") commonly fail *because*
+        // of it, so they only withhold the verdict when there is no violation to report.
         if !violation_lines.is_empty() {
             for l in violation_lines {
                 println!("{l}");
             }
             std::process::exit(1);
+        }
+        if !self.selfcheck_failures.is_empty() {
+            eprintln!("{} self-check failure(s); no verdict", self.selfcheck_failures.len());
+            std::process::exit(2);
         }
         std::process::exit(0)
     }
